@@ -469,6 +469,8 @@ func Run(r *fw.Run) {
 			c.Skip() // quick tier: every other new policy (alternating with the base policy index)
 		}
 		w := &wm.World{NSs: c01.NsConfigs[0], WLs: c01.ThreeWL(c01.CPortAlpha[1], c01.CPortAlpha[2], nil)}
+		// a bare Pod that shares namespace and name with the Deployment w1 and has other labels (anything keyed by name alone mixes them up)
+		w.WLs = append(w.WLs, wm.Workload{Kind: "Pod", NS: "ns1", Name: "w1", Labels: map[string]string{"app": "z"}})
 		if b1 > 0 {
 			p := pols[b1-1]
 			p.Name = "b1"
